@@ -126,6 +126,43 @@ whose `subpackage_view` equals the service's own sub-package.  A service of the 
 service of the API; a service of a sub-package sees the services of that sub-package (and below) only. -/
 def FullApi.seenBy (a : FullApi) (s : Svc) : Api := a.view s.subpackage
 
+/-! ### Selective GAPIC generation (`python_settings.common.selective_gapic_generation`) -/
+
+/-- what the third pass of `API.build` makes of an RPC: on the allow-list (or no selective generation) it stays public;
+otherwise it is pruned (`prune_messages_for_selective_generation`) or, under `generate_omitted_as_internal`, kept with
+`is_internal=True` (`with_internal_methods`: private client method name, `Base…Client`) -/
+inductive Gen where
+  | pub | internal | omitted
+deriving DecidableEq, Repr
+
+/-- a service as DECLARED in the protos, each RPC with its fate -/
+structure SrcSvc where
+  subpackage : List String
+  methods : List (String × Gen)
+deriving Repr
+
+structure SrcApi where
+  services : List SrcSvc
+deriving Repr
+
+/-- the `Service` object of the rebuilt API: omitted RPCs are gone, internal ones are there under their proto name
+(`service.methods` is keyed by the RPC's name whatever `is_internal` says; `_has_iam_overrides` asks `m_name in s.methods`
+and reads nothing else).  A service all of whose RPCs are omitted disappears in the code; here it stays with no RPC,
+which no function of this model can tell apart. -/
+def SrcSvc.generated (s : SrcSvc) : Svc :=
+  ⟨s.subpackage, (s.methods.filter (fun m => m.2 != Gen.omitted)).map (·.1)⟩
+
+def SrcApi.generated (a : SrcApi) : FullApi := ⟨a.services.map (·.generated)⟩
+
+/-- (for stating that `is_internal` is never read) the same API with every internal RPC made public -/
+def Gen.publicised : Gen → Gen
+  | .internal => .pub
+  | g => g
+
+def SrcSvc.publicised (s : SrcSvc) : SrcSvc := ⟨s.subpackage, s.methods.map fun m => (m.1, m.2.publicised)⟩
+
+def SrcApi.publicised (a : SrcApi) : SrcApi := ⟨a.services.map (·.publicised)⟩
+
 /-- `has_location_mixin` / `has_iam_mixin` / `has_operations_mixin` -/
 def hasMixin (y : Yaml) (a : MixinApi) : Bool := y.apis.any (· == a.fullName)
 
